@@ -290,6 +290,13 @@ struct CondRem {
 #endif
 };
 
+// the same condition with a parameterless call operator next to the one that takes the trigger's arguments
+struct CondRemBoth : CondRem {
+	CondRemBoth(long m_, long r_) : CondRem{m_, r_} {}
+	using CondRem::operator();
+	bool operator()() const { return false; }
+};
+
 // the ledger-counted callback object inside a stored listener, whatever it is wrapped in
 static CbFn * cbOf(Queue::Callback & cb) {
 	if(auto p = cb.target<CbFn>()) return p;
@@ -297,6 +304,8 @@ static CbFn * cbOf(Queue::Callback & cb) {
 	if(auto p = cb.target<CW>()) return &p->data->listener;
 	using DW = eventpp::ConditionalRemover<Queue>::ItemByCondition<CbFn, CondRem>;
 	if(auto p = cb.target<DW>()) return &p->data->listener;
+	using DW2 = eventpp::ConditionalRemover<Queue>::ItemByCondition<CbFn, CondRemBoth>;
+	if(auto p = cb.target<DW2>()) return &p->data->listener;
 	if(auto p = cb.target<CondWrapped>()) return &p->func;
 	if(auto p = cb.target<Adapted>()) return &p->func.inner;
 	return nullptr;
@@ -381,6 +390,7 @@ struct World {
 				// the event is handed over in a variable of the caller that changes right afterwards: the remover keeps its own copy
 				KeyT keyVar = mkKey(key);
 				if(op == "listencounted") h = eventpp::counterRemover(q).appendListener(keyVar, fn, (int)c.n(3));
+				else if(id % 2) h = eventpp::conditionalRemover(q).appendListener(keyVar, fn, CondRemBoth(c.n(3), c.n(4)));
 				else h = eventpp::conditionalRemover(q).appendListener(keyVar, fn, CondRem{c.n(3), c.n(4)});
 				keyVar = mkKey(nkeys + 7);
 			}
